@@ -72,6 +72,21 @@ class Library:
         self._pmap = {float(p): i + 1 for i, p in enumerate(self.P)}
         self.packed = np.stack([self.P, self.e, self.omega, self.M0, self.s], axis=1)
 
+    @classmethod
+    def from_samples(cls, samples, data_unit="km/s"):
+        """library view of an existing JokerSamples (any units): packed values are what the kernel will see"""
+        import astropy.units as u
+        self = cls.__new__(cls)
+        units = {"P": u.day, "e": u.one, "omega": u.rad, "M0": u.rad, "s": u.Unit(data_unit)}
+        packed, _ = samples.pack(units=units, names=["P", "e", "omega", "M0", "s"])
+        self.N = len(samples)
+        self.packed = np.ascontiguousarray(packed, dtype=float)
+        self.P = self.packed[:, 0]
+        self.samples = samples
+        self.lnprior = np.asarray(samples["ln_prior"]).astype(float) if "ln_prior" in samples.par_names else None
+        self._pmap = {float(p): i + 1 for i, p in enumerate(self.P)}
+        return self
+
     def decode(self, chunk):
         """packed chunk (P first column, in days) -> 1-based library ids (0 = not a library row)"""
         return [self._pmap.get(float(p), 0) for p in np.asarray(chunk)[:, 0]]
